@@ -194,6 +194,37 @@ pub fn shapes(alpha: &[Sym], max_len: usize) -> Vec<Vec<Sym>> {
     all
 }
 
+/// all lists of length 1..=max_len, delivered in chunks (one per first symbol pair) so that the whole
+/// space never has to be held in memory
+pub fn shape_chunks(alpha: &[Sym], max_len: usize) -> Vec<Vec<Vec<Sym>>> {
+    let mut chunks: Vec<Vec<Vec<Sym>>> = vec![];
+    // lengths 1 and 2
+    chunks.push(shapes(alpha, max_len.min(2)));
+    if max_len <= 2 {
+        return chunks;
+    }
+    for a in alpha {
+        for b in alpha {
+            let mut out: Vec<Vec<Sym>> = vec![];
+            let mut frontier: Vec<Vec<Sym>> = vec![vec![*a, *b]];
+            for _ in 2..max_len {
+                let mut next = Vec::with_capacity(frontier.len() * alpha.len());
+                for p in &frontier {
+                    for s in alpha {
+                        let mut q = p.clone();
+                        q.push(*s);
+                        next.push(q);
+                    }
+                }
+                out.extend(next.iter().cloned());
+                frontier = next;
+            }
+            chunks.push(out);
+        }
+    }
+    chunks
+}
+
 pub struct Out {
     pub class: String,
     pub found: Vec<Found>,
@@ -270,7 +301,7 @@ pub fn run_shape(sc: &Sc, st: St, list: &[Sym]) -> Out {
 pub fn run(tier: Tier) -> Outcome {
     let max_len = if tier == Tier::Quick { 4 } else { 5 };
     let alpha = alphabet(max_len);
-    let lists = shapes(&alpha, max_len);
+
     let states = [St::Normal, St::Frozen, St::Disabled, St::InReceivership, St::AlreadyInFlashloan, St::Unhealthy, St::Bankrupt];
     let mut classes: BTreeMap<String, u64> = BTreeMap::new();
     let mut found: Vec<Found> = vec![];
@@ -278,14 +309,18 @@ pub fn run(tier: Tier) -> Outcome {
     let mut cells = 0u64;
     for st in states {
         let sc = scene(st);
-        let results: Vec<Out> = lists.par_iter().map(|l| run_shape(&sc, st, l)).collect();
-        for (l, r) in lists.iter().zip(results.into_iter()) {
-            cells += 1;
-            *classes.entry(format!("{:?}:{}", st, r.class)).or_insert(0) += 1;
-            if r.class.contains("with_bracket:risky") && samples.len() < 4 && cells % 7 == 0 {
-                samples.push(json!({"state": st, "committed": l}));
+        for lists in shape_chunks(&alpha, max_len) {
+            let results: Vec<Out> = lists.par_iter().map(|l| run_shape(&sc, st, l)).collect();
+            for (l, r) in lists.iter().zip(results.into_iter()) {
+                cells += 1;
+                *classes.entry(format!("{:?}:{}", st, r.class)).or_insert(0) += 1;
+                if r.class.contains("with_bracket:risky") && samples.len() < 4 && cells % 7 == 0 {
+                    samples.push(json!({"state": st, "committed": l}));
+                }
+                if found.len() < 5000 {
+                    found.extend(r.found);
+                }
             }
-            found.extend(r.found);
         }
     }
     let mut o = Outcome { level: "model_checking".into(), ..Default::default() };
